@@ -554,7 +554,7 @@ func vfc13BuildErr(m string) string {
 
 func vfc13ParseStatus(err error) string {
 	if err == nil {
-		return "eof"
+		return "nil" // a clean end reported where the parser stopped on something (EOF at least)
 	}
 	m := err.Error()
 	switch {
@@ -821,6 +821,16 @@ type vfc13World struct {
 	markerValues [][]byte
 	fb           string
 	viol         bool
+	rerun        string // how VERIF_REPLAY re-runs this world: "hist <subseed> <events>" | "script <line>"
+}
+
+// violate: Session.Violate with the world's re-run recipe in the replay record
+func (w *vfc13World) violate(what, detail string, m map[string]interface{}) {
+	if m == nil {
+		m = map[string]interface{}{}
+	}
+	m["rerun"] = w.rerun
+	w.s.Violate(what, detail, m)
 }
 
 func vfc13SiteName(i int) string { return string(rune('A' + i)) }
@@ -834,6 +844,7 @@ func vfc13NewWorld(t *testing.T, s *vfutil.Session, r *vfutil.Rand, ca, cb vfc13
 		tg.Lenient = true
 		ro := vfc13NewOutput(false, fb, cp, nil, nil, tg)
 		ro.cfg.ReplayMode = mode
+		ro.cfg.InputName = "in-" + vfc13SiteName(i) // the two links are two syncers: own input name, own run id ("runid-A" / "runid-B")
 		w.links[i] = &vfc13Link{src: i, dst: 1 - i, cp: cp, ro: ro, tg: tg, mode: mode}
 	}
 	return w
@@ -986,14 +997,14 @@ func (w *vfc13World) applyToolRequest(l *vfc13Link, q vfc13Req) {
 			w.s.Count("book_" + strings.SplitN(tok, ":", 2)[0])
 			return
 		}
-		w.s.Violate("unmodelled-bookkeeping-traffic", "the tool wrote a stand-alone request the model has no form for: "+c.tok(),
+		w.violate("unmodelled-bookkeeping-traffic", "the tool wrote a stand-alone request the model has no form for: "+c.tok(),
 			map[string]interface{}{"cmd": c.tok()})
 		w.viol = true
 		w.evs = append(w.evs, fmt.Sprintf("r%s:0:%s", name, c.tok()))
 		w.sites[l.dst].exec(false, []vfc13Cmd{c}, func(int) string { return "book" })
 		return
 	}
-	w.s.Violate("bookkeeping-inside-multi", "the tool sent a MULTI/EXEC block that is not a unit commit (no marker first): "+vfc13CmdsTok(q.cmds),
+	w.violate("bookkeeping-inside-multi", "the tool sent a MULTI/EXEC block that is not a unit commit (no marker first): "+vfc13CmdsTok(q.cmds),
 		map[string]interface{}{"cmds": vfc13CmdsTok(q.cmds), "link": name})
 	w.viol = true
 	w.evs = append(w.evs, fmt.Sprintf("r%s:1:%s", name, vfc13CmdsTok(q.cmds)))
@@ -1012,7 +1023,7 @@ func (w *vfc13World) skipBlock(l *vfc13Link, kind string, blk vfc13Block) {
 		var id int
 		fmt.Sscanf(blk.tag, "f%d", &id)
 		if w.foreignOK[id] && len(blk.cmds) > 0 {
-			w.s.Violate("foreign-block-suppressed", "a client/expiry block outside the reserved namespace was consumed by the link without being committed at the other site",
+			w.violate("foreign-block-suppressed", "a client/expiry block outside the reserved namespace was consumed by the link without being committed at the other site",
 				map[string]interface{}{"block": blk.tok(), "tag": blk.tag, "site": name, "redis": w.sites[l.src].cfg.bits()})
 			w.viol = true
 		}
@@ -1052,6 +1063,12 @@ func (w *vfc13World) linkRun(r *vfutil.Rand, src int, n int) bool {
 	err, log := vfBisyncLoopRun(w.t, l.ro, l.tg, "runid-"+name, wire, l.off, settle)
 	l.logMark = l.tg.LogLen()
 	status := vfc13ParseStatus(err)
+	if status == "nil" {
+		// the loop reports a clean end: read on like after EOF; a refusal lost this way leaves
+		// foreign blocks uncommitted (foreign-block-suppressed) and the model halts where the tool does not
+		w.s.Count("loop_returned_nil")
+		status = "eof"
+	}
 	w.s.Count("loop_run_" + string(l.mode))
 	next := 0
 	for _, q := range vfc13GroupLog(log) {
@@ -1063,7 +1080,7 @@ func (w *vfc13World) linkRun(r *vfutil.Rand, src int, n int) bool {
 		mv := txn[0].Args[1]
 		var m checkpoint.BisyncMarker
 		if json.Unmarshal(mv, &m) != nil {
-			w.s.Violate("marker-value-malformed", "marker value is not JSON", map[string]interface{}{"cmds": vfc13CmdsTok(txn)})
+			w.violate("marker-value-malformed", "marker value is not JSON", map[string]interface{}{"cmds": vfc13CmdsTok(txn)})
 			w.viol = true
 			continue
 		}
@@ -1075,7 +1092,7 @@ func (w *vfc13World) linkRun(r *vfutil.Rand, src int, n int) bool {
 			}
 		}
 		if j < 0 {
-			w.s.Violate("commit-for-unknown-block", fmt.Sprintf("a unit with end offset %d was committed; no unread block ends there (already committed, or not a block boundary)", m.EndOffset),
+			w.violate("commit-for-unknown-block", fmt.Sprintf("a unit with end offset %d was committed; no unread block ends there (already committed, or not a block boundary)", m.EndOffset),
 				map[string]interface{}{"cmds": vfc13CmdsTok(txn), "link": name})
 			w.viol = true
 			continue
@@ -1106,7 +1123,7 @@ func (w *vfc13World) linkRun(r *vfutil.Rand, src int, n int) bool {
 	}
 	w.outcomes = append(w.outcomes, "L"+name+":halt:"+status)
 	if toolOnly {
-		w.s.Violate("tool-block-halts-opposite-link", "only blocks the tool wrote were left to read, yet the opposite link stopped: "+status,
+		w.violate("tool-block-halts-opposite-link", "only blocks the tool wrote were left to read, yet the opposite link stopped: "+status,
 			map[string]interface{}{"link": name, "status": status})
 		w.viol = true
 	}
@@ -1120,7 +1137,7 @@ func (w *vfc13World) commitBlock(l *vfc13Link, kind string, blk vfc13Block, txn 
 	replay := map[string]interface{}{"block": blk.tok(), "tag": blk.tag, "site": name, "redis": w.sites[l.src].cfg.bits(), "mode": string(l.mode)}
 	w.s.Count("link_emit_" + blk.tag[:1])
 	if blk.tag[0] != 'f' {
-		w.s.Violate("tool-block-came-back-as-unit", "something the tool wrote at this site came back as a replay unit: "+blk.tag+" "+blk.tok(), replay)
+		w.violate("tool-block-came-back-as-unit", "something the tool wrote at this site came back as a replay unit: "+blk.tag+" "+blk.tok(), replay)
 		w.viol = true
 	}
 	nCtl := 1
@@ -1128,7 +1145,7 @@ func (w *vfc13World) commitBlock(l *vfc13Link, kind string, blk vfc13Block, txn 
 		nCtl = 2
 	}
 	if len(txn) < 1+nCtl {
-		w.s.Violate("commit-shape", "committed transaction is not marker + business commands + record(+index)", replay)
+		w.violate("commit-shape", "committed transaction is not marker + business commands + record(+index)", replay)
 		w.viol = true
 		return
 	}
@@ -1143,7 +1160,7 @@ func (w *vfc13World) commitBlock(l *vfc13Link, kind string, blk vfc13Block, txn 
 			checkpoint.IsBisyncCommitIndexKey(string(idx.Args[0]))
 	}
 	if !okShape {
-		w.s.Violate("commit-shape", "committed transaction is not marker + business commands + record(+index)", replay)
+		w.violate("commit-shape", "committed transaction is not marker + business commands + record(+index)", replay)
 		w.viol = true
 		return
 	}
@@ -1164,7 +1181,7 @@ func (w *vfc13World) commitBlock(l *vfc13Link, kind string, blk vfc13Block, txn 
 		var id int
 		fmt.Sscanf(blk.tag, "f%d", &id)
 		if w.foreignOK[id] {
-			w.s.Violate("unit-content-differs", "the unit committed for a client block does not hold exactly the block's commands", replay)
+			w.violate("unit-content-differs", "the unit committed for a client block does not hold exactly the block's commands", replay)
 			w.viol = true
 		}
 	}
@@ -1187,7 +1204,7 @@ func (w *vfc13World) commitBlock(l *vfc13Link, kind string, blk vfc13Block, txn 
 	w.commits = append(w.commits, blk.tag+"@"+vfc13SiteName(l.dst))
 	w.commitCount[blk.tag]++
 	if blk.tag[0] == 'f' && w.commitCount[blk.tag] > 1 {
-		w.s.Violate("write-applied-twice", "the unit of block "+blk.tag+" was committed more than once", replay)
+		w.violate("write-applied-twice", "the unit of block "+blk.tag+" was committed more than once", replay)
 		w.viol = true
 	}
 }
@@ -1204,19 +1221,27 @@ func (w *vfc13World) snapshot(src int, cmds []vfc13Cmd) {
 		Digest: bisyncDigest(aof), Commands: aof}
 	l.newRequests()
 	if err := l.ro.execBisyncRdbUnit(l.dial(), "runid-"+name, u); err != nil {
-		w.s.Violate("commit-failed", err.Error(), map[string]interface{}{"cmds": vfc13CmdsTok(cmds)})
+		w.violate("commit-failed", err.Error(), map[string]interface{}{"cmds": vfc13CmdsTok(cmds)})
 		return
 	}
 	reqs := l.newRequests()
+	for _, q := range reqs {
+		if q.multi && (len(q.cmds) == 0 || !vfc13IsMarkerSet(q.cmds[0])) {
+			// the peer's stream shows this block as a client transaction: the opposite link sends it back
+			w.violate("snapshot-block-without-marker", fmt.Sprintf("a MULTI block of %d commands without the marker first was sent for a snapshot unit of %d commands (%d requests in all)", len(q.cmds), len(cmds), len(reqs)),
+				map[string]interface{}{"cmds": vfc13CmdsTok(cmds)})
+			w.viol = true
+		}
+	}
 	if len(reqs) != 1 || !reqs[0].multi || len(reqs[0].cmds) != len(cmds)+1 {
-		w.s.Violate("commit-not-one-transaction", "snapshot unit", map[string]interface{}{"cmds": vfc13CmdsTok(cmds)})
+		w.violate("commit-not-one-transaction", "snapshot unit", map[string]interface{}{"cmds": vfc13CmdsTok(cmds)})
 		return
 	}
 	txn := reqs[0].cmds
 	mv := txn[0].Args[1]
 	var m checkpoint.BisyncMarker
 	if json.Unmarshal(mv, &m) != nil || m.RecordType != "rdb" {
-		w.s.Violate("marker-value-malformed", "snapshot marker is not record_type=rdb", map[string]interface{}{})
+		w.violate("marker-value-malformed", "snapshot marker is not record_type=rdb", map[string]interface{}{})
 	}
 	w.markerValues = append(w.markerValues, mv)
 	lc := make([]vfc13Cmd, len(cmds))
@@ -1323,14 +1348,14 @@ func (w *vfc13World) drain(r *vfutil.Rand) {
 		}
 		rounds++
 		if rounds > maxRounds {
-			s.Violate("no-quiescence", fmt.Sprintf("links still have work after %d rounds without client writes (%d blocks were unread when the writes stopped)", rounds, unread),
+			w.violate("no-quiescence", fmt.Sprintf("links still have work after %d rounds without client writes (%d blocks were unread when the writes stopped)", rounds, unread),
 				map[string]interface{}{"events": strings.Join(w.evs, " ")})
 			w.viol = true
 			break
 		}
 	}
 	if got := len(w.commits) - emittedBefore; got > pending {
-		s.Violate("no-quiescence", fmt.Sprintf("%d units were committed during the drain, only %d foreign blocks were pending", got, pending),
+		w.violate("no-quiescence", fmt.Sprintf("%d units were committed during the drain, only %d foreign blocks were pending", got, pending),
 			map[string]interface{}{"events": strings.Join(w.evs, " ")})
 		w.viol = true
 	}
@@ -1344,7 +1369,7 @@ func (w *vfc13World) drain(r *vfutil.Rand) {
 			var id int
 			fmt.Sscanf(b.tag, "f%d", &id)
 			if w.foreignOK[id] && len(b.cmds) > 0 && w.commitCount[b.tag] != 1 {
-				s.Violate("write-not-applied-exactly-once", fmt.Sprintf("block %s applied %d times at the other site", b.tag, w.commitCount[b.tag]),
+				w.violate("write-not-applied-exactly-once", fmt.Sprintf("block %s applied %d times at the other site", b.tag, w.commitCount[b.tag]),
 					map[string]interface{}{"events": strings.Join(w.evs, " ")})
 				w.viol = true
 			}
@@ -1354,10 +1379,12 @@ func (w *vfc13World) drain(r *vfutil.Rand) {
 
 // runHistory: a generated client history at both sites with the links running
 // the real send loop in between, then a drain.
-func vfc13RunHistory(t *testing.T, s *vfutil.Session, r *vfutil.Rand, nEv int) bool {
+func vfc13RunHistory(t *testing.T, s *vfutil.Session, sub uint64, nEv int) bool {
+	r := vfutil.NewRand(sub)
 	cfgs := func() vfc13RedisCfg { return vfc13RedisCfg{r.Bool(), r.Chance(3, 4), r.Chance(3, 4)} }
 	mode := vfutil.Pick(r, []config.ReplayMode{config.ReplayModeSync, config.ReplayModePipeline, config.ReplayModeParallel})
 	w := vfc13NewWorld(t, s, r, cfgs(), cfgs(), "none", mode)
+	w.rerun = fmt.Sprintf("hist %d %d", sub, nEv)
 	s.Count("history_mode_" + string(mode))
 	for i := 0; i < nEv; i++ {
 		site := r.Intn(2)
@@ -1368,6 +1395,10 @@ func vfc13RunHistory(t *testing.T, s *vfutil.Session, r *vfutil.Rand, nEv int) b
 			n := r.Intn(4)
 			if r.Chance(1, 6) {
 				n = r.Range(9, 40) // long transactions: beyond BatchCmdCount and the unit channel
+				if r.Chance(1, 3) {
+					n = r.Range(65, 200) // … and beyond any plausible size rule in the recognition of their mirror
+					s.Count("very_long_client_txn")
+				}
 				s.Count("long_client_txn")
 			}
 			cmds := make([]vfc13Cmd, n)
@@ -1392,7 +1423,19 @@ func vfc13RunHistory(t *testing.T, s *vfutil.Session, r *vfutil.Rand, nEv int) b
 		case x < 90:
 			w.linkRun(r, site, r.Range(1, 6))
 		case x < 94:
-			w.snapshot(site, []vfc13Cmd{vfc13ClientCmd(r, w)})
+			// a snapshot unit: the expanded commands of one value (1…150 of them), one MULTI with the rdb marker
+			ns := 1
+			if r.Chance(1, 2) {
+				ns = r.Range(2, 5)
+			} else if r.Chance(1, 3) {
+				ns = r.Range(65, 150)
+				s.Count("snapshot_unit_over_64_commands")
+			}
+			sc := make([]vfc13Cmd, ns)
+			for j := range sc {
+				sc[j] = vfc13ClientCmd(r, w)
+			}
+			w.snapshot(site, sc)
 		default:
 			w.namespaceBookkeeping(r, site)
 		}
@@ -1520,6 +1563,9 @@ func TestVerifC13(t *testing.T) {
 				m := r.Intn(4)
 				if r.Chance(1, 5) {
 					m = r.Range(9, 40)
+					if r.Chance(1, 3) {
+						m = r.Range(65, 200)
+					}
 				}
 				for q := 0; q < m; q++ {
 					stream = append(stream, vfc13ClientCmd(r, nil))
@@ -1537,6 +1583,10 @@ func TestVerifC13(t *testing.T) {
 				nb := r.Intn(3)
 				if r.Chance(1, 4) {
 					nb = r.Range(9, 40) // the mirror of a long client transaction
+					if r.Chance(1, 3) {
+						nb = r.Range(62, 200)
+						s.Count("parse_very_long_mirror")
+					}
 				}
 				for q := 0; q < nb; q++ {
 					stream = append(stream, vfc13ClientCmd(r, nil))
@@ -1607,7 +1657,8 @@ func TestVerifC13(t *testing.T) {
 		}
 	}
 	for i := 0; i < vfutil.Scale(250, 6000); i++ {
-		vfc13RunHistory(t, s, r.Fork(), r.Range(10, 70))
+		sub := r.U64()
+		vfc13RunHistory(t, s, sub, r.Range(10, 70))
 		s.Count("histories")
 	}
 }
@@ -1639,6 +1690,7 @@ func vfc13RunScript(t *testing.T, s *vfutil.Session, line string) bool {
 		mode = config.ReplayModeParallel
 	}
 	w := vfc13NewWorld(t, s, r, ca, cb, "none", mode)
+	w.rerun = "script " + line
 	parseCmd := func(tok string) vfc13Cmd {
 		parts := strings.Split(tok, ",")
 		c := vfc13Cmd{Name: vfutil.UnHex(parts[0])}
